@@ -143,7 +143,10 @@ func (x *Exec) enterBlock(st *State, fr *Frame, b *ssa.BasicBlock) bool {
 			ctx.entry = st.loopEntry[b]
 			var prev []T
 			for j, inv := range spec.Invariants {
-				g := x.evalClause(ctx, inv, c)
+				g, ok := x.evalInv(ctx, inv, c)
+				if !ok {
+					continue
+				}
 				x.nextFocus = fmt.Sprintf("%s#L%d/inv#%d", fr.fn.String(), ord, j+1)
 				var ground, simple []T
 				for _, p := range prev {
@@ -173,7 +176,10 @@ func (x *Exec) enterBlock(st *State, fr *Frame, b *ssa.BasicBlock) bool {
 		ctx := x.invCtx(st, fr, c)
 		var prev []T
 		for j, inv := range spec.Invariants {
-			g := x.evalClause(ctx, inv, c)
+			g, ok := x.evalInv(ctx, inv, c)
+			if !ok {
+				continue
+			}
 			x.addCheck(st, fr, fmt.Sprintf("%s/inv#%d/init", loopName(fr, ord), j+1), implies(and(prev...), g), b.Instrs[0].Pos(), inv.Text)
 			prev = append(prev, g)
 		}
@@ -303,7 +309,10 @@ func (x *Exec) enterBlock(st *State, fr *Frame, b *ssa.BasicBlock) bool {
 		ctx := x.invCtx(st, fr, c)
 		ctx.entry = entry
 		for j, inv := range spec.Invariants {
-			g := x.evalClause(ctx, inv, c)
+			g, ok := x.evalInv(ctx, inv, c)
+			if !ok {
+				continue
+			}
 			curTag = fmt.Sprintf("%s#L%d/inv#%d", fr.fn.String(), ord, j+1)
 			st.assume(g)
 			curTag = ""
@@ -555,4 +564,22 @@ func loopName(fr *Frame, ord int) string {
 		n = strings.TrimPrefix(strings.TrimPrefix(types.TypeString(r.Type(), func(*types.Package) string { return "" }), "*"), ".") + "." + n
 	}
 	return fmt.Sprintf("loop#%d@%s", ord, n)
+}
+
+// evalInv evaluates a loop invariant; a clause that cannot be evaluated on the present code is skipped
+// (recorded in softErr) instead of aborting the function.
+func (x *Exec) evalInv(ctx *EvalCtx, inv Clause, c *Contract) (g T, ok bool) {
+	defer func() {
+		if r := recover(); r != nil {
+			if se, isSpec := r.(specErr); isSpec {
+				if x.softErr == "" {
+					x.softErr = se.msg
+				}
+				ok = false
+				return
+			}
+			panic(r)
+		}
+	}()
+	return x.evalClause(ctx, inv, c), true
 }
